@@ -137,3 +137,370 @@ Proof.
   intros Hc Hs n Hn. unfold revert_to in Hn. fold (jlen D) in Hn. rewrite pop_n_len in Hn by lia.
   rewrite revert_to_revert by lia. apply Hc. lia.
 Qed.
+
+(** * how each cache mutator moves the total and keeps coherence *)
+Definition world_ok (W : world) : Prop := forall a, a ∉ wexists W -> zg (bank W) a = 0.
+
+Lemma lsumz_update (f g : N -> Z) U a : NoDup U -> a ∈ U -> (forall b, b <> a -> g b = f b) ->
+  lsumz g U = lsumz f U + (g a - f a).
+Proof.
+  induction U as [|x r IH]; intros Hnd Hin Hfg; [by apply elem_of_nil in Hin|].
+  apply NoDup_cons in Hnd as [Hx Hnd]. cbn [lsumz]. apply elem_of_cons in Hin as [->|Hin].
+  - rewrite (lsumz_ext g f r); [lia|]. intros b Hb. apply Hfg. intros ->. apply Hx. by apply elem_of_list_In.
+  - rewrite (IH Hnd Hin Hfg). rewrite (Hfg x); [lia|]. intros ->. by apply Hx.
+Qed.
+
+Lemma pop1_of_ext W D D' e : ext W D D' -> journal D' = e :: journal D -> obs_eq W (pop_n D' 1) D.
+Proof.
+  intros (_ & _ & H) Hj. specialize (H (jlen D) (le_n _)). rewrite revert_to_self in H.
+  unfold revert_to in H. rewrite Hj in H. cbn [length] in H. unfold jlen in H.
+  replace (S (length (journal D)) - length (journal D))%nat with 1%nat in H by lia. exact H.
+Qed.
+
+Lemma create_facts U W D a : wf W D -> cohp W D -> world_ok W -> objs D !! a = None -> a ∉ wexists W ->
+  let D' := japp (set_obj D a (mkobj 0 ∅ ∅ ∅)) (JCreate a) in
+  cohp W D' /\ total U W D' = total U W D.
+Proof.
+  intros Hwf Hc Hw Hn Hne D'. split.
+  - apply (cohp_push W D D' (JCreate a)); [reflexivity| |done|].
+    + eapply pop1_of_ext; [by apply create_ext|reflexivity].
+    + intros b o Hb Hd. unfold D' in *. cbn in Hb, Hd.
+      destruct (decide (a = b)) as [->|Hab]; [by rewrite lookup_insert in Hd|].
+      rewrite lookup_insert_ne in Hb by done. rewrite lookup_insert_ne in Hd by done. by apply (cohp_here _ _ Hc b o).
+  - apply lsumz_ext. intros b _. unfold view, D'. cbn.
+    destruct (decide (a = b)) as [->|Hab]; [|by rewrite lookup_insert_ne].
+    rewrite lookup_insert, Hn. cbn. symmetry. by apply Hw.
+Qed.
+
+Lemma get_or_new_facts U W D a : wf W D -> cohp W D -> world_ok W ->
+  cohp W (get_or_new W D a) /\ total U W (get_or_new W D a) = total U W D.
+Proof.
+  intros Hwf Hc Hw. unfold get_or_new. rewrite (load_id _ _ _ Hwf).
+  destruct (objs D !! a) as [o|] eqn:E; [done|].
+  apply create_facts; auto. intros Hin. destruct Hwf as (Hs & _). destruct (Hs a Hin). congruence.
+Qed.
+
+Lemma set_bal_facts U W D a v o : wf W D -> cohp W D -> NoDup U -> a ∈ U -> objs D !! a = Some o ->
+  cohp W (set_bal D a v) /\ total U W (set_bal D a v) = total U W D + (v - obal o).
+Proof.
+  intros Hwf Hc Hnd Hin Ho. pose proof (set_bal_ext W D a v Hwf) as He. unfold set_bal in *. rewrite Ho in *. split.
+  - eapply (cohp_push W D _ (JBal a (obal o))); [reflexivity| |done|].
+    + eapply pop1_of_ext; [exact He|reflexivity].
+    + intros b o' Hb Hd. cbn in Hb, Hd.
+      destruct (decide (a = b)) as [->|Hab]; [by rewrite lookup_insert in Hd|].
+      rewrite lookup_insert_ne in Hb by done. rewrite lookup_insert_ne in Hd by done. by apply (cohp_here _ _ Hc b o').
+  - unfold total. rewrite (lsumz_update (view W D) _ U a Hnd Hin).
+    + unfold view; cbn. rewrite lookup_insert, Ho. cbn. lia.
+    + intros b Hb. unfold view; cbn. by rewrite lookup_insert_ne.
+Qed.
+
+Lemma add_bal_facts U W D a amt : wf W D -> cohp W D -> world_ok W -> NoDup U -> a ∈ U ->
+  cohp W (add_bal W D a amt) /\ total U W (add_bal W D a amt) = total U W D + amt.
+Proof.
+  intros Hwf Hc Hw Hnd Hin. unfold add_bal.
+  destruct (get_or_new_ext W D a Hwf) as [He [o Ho]].
+  destruct (get_or_new_facts U W D a Hwf Hc Hw) as [Hc1 Ht1].
+  destruct (amt =? 0) eqn:Ea; [apply Z.eqb_eq in Ea; subst; split; [done|lia]|].
+  destruct (set_bal_facts U W _ a (cbal (get_or_new W D a) a + amt) o (proj1 He) Hc1 Hnd Hin Ho) as [Hc2 Ht2].
+  split; [done|]. rewrite Ht2, Ht1. unfold cbal. rewrite Ho. lia.
+Qed.
+
+Lemma add_log_facts U W D : wf W D -> cohp W D -> cohp W (add_log D) /\ total U W (add_log D) = total U W D.
+Proof.
+  intros Hwf Hc. split.
+  - eapply (cohp_push W D _ JLog); [reflexivity| |done|].
+    + eapply pop1_of_ext; [by apply add_log_ext|reflexivity].
+    + intros b o Hb Hd. cbn in Hb, Hd. by apply (cohp_here _ _ Hc b o).
+  - reflexivity.
+Qed.
+
+(** shape of SetState after the object exists: either nothing is journalled and the
+    cache is observationally unchanged, or one storage entry is pushed *)
+Lemma set_state_shape W D a k v : wf W D ->
+  let D1 := get_or_new W D a in
+  let D2 := set_state W D a k v in
+  (forall b, obal <$> objs D2 !! b = obal <$> objs D1 !! b) /\
+  ((journal D2 = journal D1 /\ obs_eq W D2 D1) \/
+   (exists prev, journal D2 = JStor a k prev :: journal D1 /\ obs_eq W (pop_n D2 1) D1 /\
+                 is_Some (dirties D2 !! a) /\ forall b, b <> a -> dirties D2 !! b = dirties D1 !! b)).
+Proof.
+  intros Hwf D1 D2. unfold D2, set_state. destruct (get_or_new_ext W D a Hwf) as [He [o Ho]].
+  fold D1 in He, Ho |- *. rewrite Ho.
+  assert (Hwf1 : wf W D1) by apply He.
+  set (pr := match dstor o !! k with
+             | Some d => (d, o)
+             | None => match ostor o !! k with
+                       | Some c => (c, o)
+                       | None => (zg (store W) (a, k),
+                                  mkobj (obal o) (dstor o) (<[k := zg (store W) (a, k)]> (ostor o)) (tstor o))
+                       end
+             end).
+  assert (Hpr : fst pr = rs W a o k /\ obal (snd pr) = obal o /\ tstor (snd pr) = tstor o /\ dstor (snd pr) = dstor o /\
+                forall k', rs W a (snd pr) k' = rs W a o k').
+  { unfold pr, rs. destruct (dstor o !! k) eqn:Ed; cbn.
+    - repeat split; auto.
+    - destruct (ostor o !! k) eqn:Eo; cbn.
+      + repeat split; auto.
+      + repeat split; auto. intros k'. destruct (dstor o !! k'); [done|].
+        destruct (decide (k = k')) as [->|]; [by rewrite lookup_insert, Eo|by rewrite lookup_insert_ne]. }
+  destruct pr as [prev o1]. cbn [fst snd] in Hpr. destruct Hpr as (Hprev & Hb1 & Ht1 & Hd1 & Hrs1).
+  destruct (prev =? v).
+  - split.
+    + intros b. cbn. destruct (decide (a = b)) as [->|]; [by rewrite lookup_insert, Ho; cbn; rewrite Hb1|by rewrite lookup_insert_ne].
+    + left. split; [reflexivity|]. unfold obs_eq; cbn. split; [done|]. split; [done|]. split; [done|].
+      intros b. destruct (decide (a = b)) as [->|]; [|rewrite lookup_insert_ne by done; apply oeq_refl].
+      rewrite lookup_insert, Ho. cbn. auto.
+  - split.
+    + intros b. cbn. destruct (decide (a = b)) as [->|]; [by rewrite lookup_insert, Ho; cbn; rewrite Hb1|by rewrite lookup_insert_ne].
+    + right. exists prev. split; [reflexivity|]. split; [|split].
+      * cbn [length pop_n japp journal set_obj objs dirties logs dirtied]. rewrite undo_split.
+        unfold undo_core, undo_dirt; cbn [dirtied objs journal dirties logs set_obj].
+        rewrite lookup_insert. cbn [objs journal dirties logs set_obj obal dstor ostor tstor].
+        destruct Hwf1 as (_ & Hp & _). rewrite (dirt_rt (dirties D1) a (Hp a)).
+        unfold obs_eq; cbn. split; [done|]. split; [done|]. split; [done|].
+        intros b. destruct (decide (a = b)) as [->|]; [|rewrite !lookup_insert_ne by done; apply oeq_refl].
+        rewrite lookup_insert, Ho. cbn. split; [done|]. split; [done|].
+        intros k'. rewrite <- Hrs1. unfold rs at 1; cbn. rewrite insert_insert.
+        destruct (decide (k = k')) as [->|Hk].
+        -- rewrite lookup_insert. rewrite Hprev. symmetry. apply Hrs1.
+        -- rewrite lookup_insert_ne by done. unfold rs. by rewrite Hd1.
+      * cbn. rewrite lookup_insert. eauto.
+      * intros b Hb. cbn. by rewrite lookup_insert_ne.
+Qed.
+
+Lemma set_state_facts U W D a k v : wf W D -> cohp W D -> world_ok W ->
+  cohp W (set_state W D a k v) /\ total U W (set_state W D a k v) = total U W D.
+Proof.
+  intros Hwf Hc Hw.
+  destruct (get_or_new_facts U W D a Hwf Hc Hw) as [Hc1 Ht1].
+  destruct (set_state_shape W D a k v Hwf) as [Hob Hcase].
+  assert (Htot : total U W (set_state W D a k v) = total U W D).
+  { rewrite <- Ht1. apply lsumz_ext. intros b _. unfold view. specialize (Hob b).
+    destruct (objs (set_state W D a k v) !! b), (objs (get_or_new W D a) !! b); cbn in Hob; congruence. }
+  split; [|exact Htot].
+  destruct Hcase as [[Hj Ho]|(prev & Hj & Hpop & Hda & Hdo)].
+  - by eapply cohp_same_journal.
+  - eapply (cohp_push W _ _ (JStor a k prev)); [exact Hj|exact Hpop|exact Hc1|].
+    intros b o' Hb Hd. destruct (decide (b = a)) as [->|Hba]; [destruct Hda; congruence|].
+    specialize (Hob b). rewrite Hb in Hob. destruct (objs (get_or_new W D a) !! b) as [o1|] eqn:E1; cbn in Hob; [|congruence].
+    inversion Hob as [Hbb]. rewrite Hbb. apply (cohp_here _ _ Hc1 b o1 E1). by rewrite <- Hdo.
+Qed.
+
+(** * pure programs preserve the total of the cache view and coherence *)
+Fixpoint closedb (U : list N) (i : instr) : bool :=
+  match i with
+  | ICall t _ _ _ body => bool_decide (t ∈ U) && forallb (closedb U) body
+  | _ => true
+  end.
+
+Definition pstep2 (U : list N) (W : world) (D : sdb) (r : st * outcome) : Prop :=
+  fst (fst r) = W /\ ext W D (snd (fst r)) /\ cohp W (snd (fst r)) /\ total U W (snd (fst r)) = total U W D.
+
+Lemma pstep2_seq U W D r (f : st -> st * outcome) :
+  pstep2 U W D r -> (forall D1, wf W D1 -> cohp W D1 -> pstep2 U W D1 (f (W, D1))) ->
+  pstep2 U W D (let '(s1, oc) := r in match oc with Ok => f s1 | Fail => (s1, oc) end).
+Proof.
+  destruct r as [[W1 D1] oc]. intros (HW & He & Hc & Ht) Hf. cbn in HW. subst W1. cbn in He, Hc, Ht.
+  destruct oc; [|unfold pstep2; cbn [fst snd]; tauto].
+  destruct (Hf D1 (proj1 He) Hc) as (HW2 & He2 & Hc2 & Ht2). split; [done|]. split; [eapply ext_trans; eauto|].
+  split; [done|]. congruence.
+Qed.
+
+Lemma do_call_pure2 U order W D caller target value run :
+  wf W D -> cohp W D -> world_ok W -> NoDup U -> caller ∈ U -> target ∈ U ->
+  (forall D1, wf W D1 -> cohp W D1 -> pstep2 U W D1 (run (W, D1))) ->
+  pstep2 U W D (do_call order (W, D) caller target value run).
+Proof.
+  intros Hwf Hc Hw Hnd Hcu Htu Hrun. unfold do_call. rewrite !(load_id _ _ _ Hwf).
+  destruct (negb (value =? 0) && (cbal D caller <? value)).
+  { split; [done|]. split; [by apply ext_refl|]. by split. }
+  assert (HD0 : (if value =? 0 then D else D) = D) by (by destruct (value =? 0)). rewrite HD0.
+  rewrite !(load_id _ _ _ Hwf).
+  set (D2 := match objs D !! target with
+             | Some _ => D
+             | None => japp (set_obj D target (mkobj 0 ∅ ∅ ∅)) (JCreate target)
+             end).
+  assert (H2 : ext W D D2 /\ cohp W D2 /\ total U W D2 = total U W D).
+  { unfold D2. destruct (objs D !! target) eqn:E; [split; [by apply ext_refl|by split]|].
+    assert (Hne : target ∉ wexists W).
+    { intros Hin. destruct Hwf as (Hs & _). destruct (Hs _ Hin). congruence. }
+    split; [by apply create_ext|]. by apply create_facts. }
+  destruct H2 as (He2 & Hc2 & Ht2).
+  set (Ds := sub_bal W D2 caller value).
+  assert (Hs : ext W D2 Ds /\ cohp W Ds /\ total U W Ds = total U W D2 + - value).
+  { unfold Ds, sub_bal. split; [apply add_bal_ext, He2|]. apply add_bal_facts; auto. apply He2. }
+  destruct Hs as (Hes & Hcs & Hts).
+  set (D3 := add_bal W Ds target value).
+  assert (H3 : ext W Ds D3 /\ cohp W D3 /\ total U W D3 = total U W Ds + value).
+  { unfold D3. split; [apply add_bal_ext, Hes|]. apply add_bal_facts; auto. apply Hes. }
+  destruct H3 as (He3 & Hc3 & Ht3).
+  assert (HeD3 : ext W D D3) by (eapply ext_trans; [exact He2|]; eapply ext_trans; eauto).
+  destruct (Hrun D3 (proj1 HeD3) Hc3) as (HW4 & He4 & Hc4 & Ht4).
+  destruct (run (W, D3)) as [[W4 D4] oc]. cbn in HW4, He4, Hc4, Ht4. subst W4.
+  assert (He : ext W D D4) by (eapply ext_trans; eauto).
+  destruct oc; unfold pstep2; cbn [fst snd].
+  - split; [done|]. split; [done|]. split; [done|]. lia.
+  - assert (Hsn : (jlen D <= snapshot D <= jlen D4)%nat).
+    { unfold snapshot. fold (jlen D). destruct He as (_ & L & _). lia. }
+    split; [done|]. split; [by apply ext_revert|]. split.
+    + apply cohp_revert; [done|lia].
+    + apply total_obs_eq. destruct He as (_ & _ & H). specialize (H (jlen D) (le_n _)).
+      rewrite revert_to_self in H. unfold snapshot. fold (jlen D). exact H.
+Qed.
+
+Lemma after_call_pure2 U W D0 self catch rec r : world_ok W ->
+  pstep2 U W D0 r -> pstep2 U W D0 (after_call self catch rec r).
+Proof.
+  destruct r as [[W1 D1] oc]. intros Hw (HW & He & Hc & Ht). cbn in HW, He, Hc, Ht. subst W1. unfold after_call.
+  set (D2 := match rec with Some slot => set_state W D1 self slot _ | None => D1 end).
+  assert (H2 : ext W D0 D2 /\ cohp W D2 /\ total U W D2 = total U W D0).
+  { unfold D2. destruct rec as [slot|]; [|done].
+    split; [eapply ext_trans; [exact He|]; apply set_state_ext, He|].
+    destruct (set_state_facts U W D1 self slot (if match oc with Ok => true | Fail => false end then 2 else 1)
+                (proj1 He) Hc Hw) as [Hc2 Ht2]. split; [done|]. congruence. }
+  destruct (catch || _); unfold pstep2; cbn [fst snd]; tauto.
+Qed.
+
+Theorem pure_instr2 U : NoDup U -> forall i, pure i = true -> closedb U i = true ->
+  forall order o self W D, world_ok W -> self ∈ U -> wf W D -> cohp W D ->
+    pstep2 U W D (exec_instr order o self i (W, D)).
+Proof.
+  intros Hnd.
+  induction i as [k v| | |a|t v c r body IH|p v c r] using instr_ind'; intros Hp Hcl order o self W D Hw Hself Hwf Hc;
+    cbn [exec_instr].
+  - split; [done|]. split; [by apply set_state_ext|]. by apply set_state_facts.
+  - split; [done|]. split; [by apply add_log_ext|]. by apply add_log_facts.
+  - split; [done|]. split; [by apply ext_refl|]. by split.
+  - split; [done|]. cbn. rewrite load_id by done. split; [by apply ext_refl|]. by split.
+  - cbn [pure closedb] in Hp, Hcl. apply andb_prop in Hcl as [Ht Hcb]. apply bool_decide_eq_true in Ht.
+    apply after_call_pure2; [done|]. apply do_call_pure2; auto.
+    intros D1 Hwf1 Hc1. destruct (N.leb 2 t && N.leb t 4).
+    2:{ split; [done|]. split; [by apply ext_refl|]. by split. }
+    clear Hwf Hc D. revert D1 Hwf1 Hc1.
+    induction body as [|x body IHb]; intros D1 Hwf1 Hc1.
+    { split; [done|]. split; [by apply ext_refl|]. by split. }
+    cbn [forallb] in Hp, Hcb. apply andb_prop in Hp as [Hpx Hpb]. apply andb_prop in Hcb as [Hcx Hcbb].
+    inversion IH as [|? ? IHx IHrest]; subst.
+    apply (pstep2_seq U W D1 (exec_instr order o t x (W, D1))).
+    + by apply IHx.
+    + intros D2 Hwf2 Hc2. by apply IHb.
+  - discriminate.
+Qed.
+
+Lemma pure_list2 U order o self W : NoDup U -> world_ok W -> self ∈ U ->
+  forall body, forallb pure body = true -> forallb (closedb U) body = true ->
+  forall D, wf W D -> cohp W D -> pstep2 U W D (exec_list order o self body (W, D)).
+Proof.
+  intros Hnd Hw Hself. induction body as [|x body IH]; intros Hp Hcl D Hwf Hc; cbn [exec_list].
+  { split; [done|]. split; [by apply ext_refl|]. by split. }
+  cbn [forallb] in Hp, Hcl. apply andb_prop in Hp as [Hpx Hpb]. apply andb_prop in Hcl as [Hcx Hcb].
+  apply (pstep2_seq U W D (exec_instr order o self x (W, D))).
+  - by apply pure_instr2.
+  - intros D2 Hwf2 Hc2. by apply IH.
+Qed.
+
+(** * a whole pure transaction conserves the total supply *)
+Definition run_tx_from (order : list N) (W0 : world) (D0 : sdb) (value : Z) (t : top) : world * bool :=
+  let o := 0%N in
+  let r := match t with
+           | TopCall c body => do_call order (W0, D0) o c value (exec_list order o c body)
+           | TopPre p => do_call order (W0, D0) o (pre_target p) value (run_pre order o o p)
+           end in
+  let '((W, D), oc) := r in
+  let '(W1, _, ok) := commit order W D in
+  if ok then match oc with Ok => (W1, true) | Fail => (W0, false) end else (W0, false).
+
+Lemma run_tx_is_from_empty order W0 value t : run_tx order W0 value t = run_tx_from order W0 sdb0 value t.
+Proof. reflexivity. Qed.
+
+Lemma lsumz_sub f g l : lsumz (fun a => f a - g a) l = lsumz f l - lsumz g l.
+Proof. induction l as [|a r IH]; cbn; lia. Qed.
+
+Lemma gap_is_view_minus_bank W D order : coh W D ->
+  lsumz (gap1 W D) order = total order W D - lsumz (fun a => zg (bank W) a) order.
+Proof.
+  intros Hc. unfold total. rewrite <- lsumz_sub. apply lsumz_ext. intros a _. unfold gap1, view.
+  destruct (dirties D !! a) eqn:Hd, (objs D !! a) as [o|] eqn:Ho; try lia.
+  rewrite (Hc a o Ho Hd). lia.
+Qed.
+
+Theorem pure_tx_conserves_supply order W0 D0 value c body :
+  NoDup order -> world_ok W0 -> 0%N ∈ order -> c ∈ order ->
+  forallb pure body = true -> forallb (closedb order) body = true ->
+  wf W0 D0 -> cohp W0 D0 -> dirties D0 = ∅ ->
+  supply (fst (run_tx_from order W0 D0 value (TopCall c body))) = supply W0.
+Proof.
+  intros Hnd Hw H0 Hc Hp Hcl Hwf Hcoh Hd0. unfold run_tx_from.
+  pose proof (do_call_pure2 order order W0 D0 0%N c value (exec_list order 0%N c body)
+                Hwf Hcoh Hw Hnd H0 Hc) as Hstep.
+  destruct Hstep as (HW & He & Hc1 & Ht).
+  { intros D1 Hwf1 Hc1. by apply pure_list2. }
+  destruct (do_call order (W0, D0) 0%N c value (exec_list order 0%N c body)) as [[W D] oc].
+  cbn [fst snd] in HW, He, Hc1, Ht. subst W.
+  destruct (commit order W0 D) as [[W1 D1] ok] eqn:Hcm. destruct ok; [|done]. destruct oc; [|done].
+  cbn [fst]. unfold commit in Hcm. rewrite (commit_supply_formula order W0 D W1 D1 Hnd Hcm).
+  rewrite (gap_is_view_minus_bank W0 D order (cohp_here _ _ Hc1)). rewrite Ht.
+  assert (Hinit : total order W0 D0 = lsumz (fun a => zg (bank W0) a) order).
+  { apply lsumz_ext. intros a _. unfold view. destruct (objs D0 !! a) as [o|] eqn:Ho; [|done].
+    apply (cohp_here _ _ Hcoh a o Ho). by rewrite Hd0. }
+  lia.
+Qed.
+
+(** non-vacuity: a saturated clean cache over a world with five funded accounts satisfies
+    every hypothesis, and the lazily loading [run_tx] gives the same result on a sample *)
+Definition sat_cache (W : world) (l : list N) : sdb := fold_left (fun D a => load W D a) l sdb0.
+
+Definition clean_inv (W : world) (D : sdb) : Prop :=
+  journal D = [] /\ dirties D = ∅ /\
+  forall a o, objs D !! a = Some o -> o = mkobj (zg (bank W) a) ∅ ∅ ∅.
+
+Lemma load_clean_inv W D a : clean_inv W D -> clean_inv W (load W D a).
+Proof.
+  intros (Hj & Hd & Ho). unfold load. destruct (objs D !! a) eqn:E; [done|].
+  destruct (bool_decide (a ∈ wexists W)); [|done]. split; [done|]. split; [done|].
+  intros b o. cbn. destruct (decide (a = b)) as [->|]; [rewrite lookup_insert; by intros [= <-]|rewrite lookup_insert_ne by done; apply Ho].
+Qed.
+Lemma load_keeps W D a b : is_Some (objs D !! b) -> is_Some (objs (load W D a) !! b).
+Proof.
+  intros H. unfold load. destruct (objs D !! a) eqn:E; [done|]. destruct (bool_decide (a ∈ wexists W)); [|done].
+  cbn. destruct (decide (a = b)) as [->|]; [rewrite lookup_insert; eauto|by rewrite lookup_insert_ne].
+Qed.
+Lemma load_loads W D a : a ∈ wexists W -> is_Some (objs (load W D a) !! a).
+Proof.
+  intros H. unfold load. destruct (objs D !! a) eqn:E; [rewrite E; eauto|].
+  rewrite bool_decide_eq_true_2 by done. cbn. rewrite lookup_insert. eauto.
+Qed.
+
+Lemma sat_cache_ok W l : (forall a, a ∈ wexists W -> a ∈ l) ->
+  wf W (sat_cache W l) /\ cohp W (sat_cache W l) /\ dirties (sat_cache W l) = ∅.
+Proof.
+  intros Hall. unfold sat_cache.
+  assert (H : forall l D, clean_inv W D ->
+            clean_inv W (fold_left (fun D a => load W D a) l D) /\
+            (forall a, (a ∈ l /\ a ∈ wexists W) \/ is_Some (objs D !! a) ->
+                       is_Some (objs (fold_left (fun D a => load W D a) l D) !! a))).
+  { clear. induction l as [|x l IH]; intros D HD; cbn [fold_left].
+    - split; [done|]. intros a [[Hin _]|H]; [by apply elem_of_nil in Hin|done].
+    - destruct (IH (load W D x) (load_clean_inv W D x HD)) as [H1 H2]. split; [done|].
+      intros a [[Hin Hex]|H]; apply H2.
+      + apply elem_of_cons in Hin as [->|Hin]; [right; by apply load_loads|left; done].
+      + right. by apply load_keeps. }
+  destruct (H l sdb0) as [(Hj & Hd & Ho) Hl]; [by repeat split|].
+  split; [|split; [|done]].
+  - split; [|split].
+    + intros a Ha. apply Hl. left. split; [by apply Hall|done].
+    + intros a c. rewrite Hd. by rewrite lookup_empty.
+    + intros a. rewrite Hj. intros [].
+  - intros n Hn. unfold jlen in Hn. rewrite Hj in Hn. cbn in Hn. assert (n = 0)%nat as -> by lia.
+    unfold revert_to. rewrite Hj. cbn. intros a o Hoa _. by rewrite (Ho a o Hoa).
+Qed.
+
+(** the theorem instantiated: from the saturated clean cache every pure, closed program conserves supply *)
+Corollary pure_tx_conserves_supply_from_clean order W0 value c body :
+  NoDup order -> world_ok W0 -> (forall a, a ∈ wexists W0 -> a ∈ order) -> 0%N ∈ order -> c ∈ order ->
+  forallb pure body = true -> forallb (closedb order) body = true ->
+  supply (fst (run_tx_from order W0 (sat_cache W0 order) value (TopCall c body))) = supply W0.
+Proof.
+  intros Hnd Hw Hall H0 Hc Hp Hcl. destruct (sat_cache_ok W0 order Hall) as (Hwf & Hcoh & Hd).
+  by apply pure_tx_conserves_supply.
+Qed.
